@@ -5,6 +5,7 @@ zero-length lines, an included file, a predefined data block) under several addr
 exact address->byte map is recovered from two images (fill 0x00 and 0xFF) and every format is
 decoded by mc/formats.py and must give the same map; the listing is also checked row by row.
 """
+import itertools
 from mc import formats as F
 from mc import refasm as R
 from mc.histories import histories
@@ -62,7 +63,7 @@ def meta(tier):
                 'predefined data blocks, one with two different blocks); per program 6 executions: two images (fill 00 / ff) giving the exact address->byte map (and a length that ends at the highest described address), and '
                 'the four formats, each decoded independently, plus two images of the window that starts inside the first multi-byte statement (-s), which must hold the same bytes from there on, and the listing / hex dump / Intel HEX requested together with that window, which must still agree with the image from the window start on; one more run requests a format (rotating) with --no-binary, which must describe the same memory; the listing rows are also compared with the reference lines '
                 '(each statement once, its address, its bytes, nothing for muted lines); non-trivial = program with a gap, a muted '
-                'byte or a line longer than 6 bytes; plus (16-bit) every history up to depth 5 (thorough 6) over {#mute, #unmute, a byte, an include of a plain file, of a file that unmutes, of a file that mutes}: '
+                'byte or a line longer than 6 bytes; plus an origin of zero followed by 6 kinds of stretch that leave address zero empty x 3 tails; plus (16-bit) every history up to depth 5 (thorough 6) over {#mute, #unmute, a byte, an include of a plain file, of a file that unmutes, of a file that mutes}: '
                 'mutes are counted across include boundaries in both directions; plus the repository\'s 26 example programs under their own definitions (formats vs image, with and without a window); states = distinct memory maps',
         'bounds': {'alphabet': [R.render_stmt(s) for s in sigma(0, 0xFFF0)], 'depth': 3 if q else 4, 'address_widths': [8, 12, 16, 24, 32],
                    'formats': FORMATS},
@@ -185,6 +186,16 @@ def shard(acc, tier, idx, n):
         for h in histories(list(range(NSYM)), depth, idx, n, prefix_ok=ok):
             files = build(h)
             examine(acc, isa, params, bits, h, files, len(h) == depth)
+        # an explicit origin of zero in front of a stretch that emits nothing at address zero (muted lines, a zone switch, an alignment)
+        gaps = [[('mute',), ('data', 1, [1, 2, 3]), ('unmute',)], [('memzone', 'zz')], [('mute',), ('data', 1, [5]), ('unmute',), ('align', 8)],
+                [('fill', 0, 1), ('mute',), ('data', 2, [0, 0xFFFF]), ('unmute',)], [('org', 0x18, None)], []]
+        tails = [[('data', 1, [0x41])], [('data', 1, [0x41 + k for k in range(8)])], [('label', 'lz'), ('data', 1, [0x42]), ('org', far, None), ('data', 1, [0x43])]]
+        for gi, ti, lead in itertools.product(range(len(gaps)), range(len(tails)), (0, 1)):
+            if (bits + gi * 7 + ti * 3 + lead) % n != idx:
+                continue
+            stmts = ([('label', 'top')] if lead else []) + [('org', 0, None)] + gaps[gi] + tails[ti] + [('data', 1, [0xEE])]
+            if R.assemble(params, {'main.asm': stmts}).status == 'OK':
+                examine(acc, isa, params, bits, ('org0', gi, ti, lead), {'main.asm': stmts}, gi == 0 and ti == 0)
         if bits == 16:
             mute_nesting(acc, isa, params, bits, idx, n, q)
     corpus_programs(acc, idx, n)
